@@ -49,6 +49,14 @@ THEOREMS = [
     # round 10: documented order of a parallel node = its children's, batch form of the embedding lemma (several notifications in one batch)
     'Tbox.C17.C17_result_matches_doc_par_leaves_visit', 'Tbox.C17.visitAll_leaves', 'Tbox.C17.C17_batch_embed', 'Tbox.C17.C17_batch_embed_generalises',
     'Tbox.C17.runItems_embed', 'Tbox.C17.runQueue_embed_batch',
+    # round 11: the timeout timer in every lifecycle state (reset of a blocked action), timeout changes at any pass, Parallel over leaves as a CHILD
+    'Tbox.C17.C17_block_keeps_timeout', 'Tbox.C17.C17_pause_stop_reset_disarm', 'Tbox.C17.C17_reset_disarms_every_timer', 'Tbox.C17.C17_restart_deadline',
+    'Tbox.C17.C17_stale_timer_survives_start_counterexample', 'Tbox.C17.C17_reset_of_blocked_action_restart',
+    'Tbox.C17.C17_set_timeout_same_value_moves_deadline', 'Tbox.C17.C17_set_timeout_not_running', 'Tbox.C17.C17_set_timeout_keeps_inv_partial',
+    'Tbox.C17.stepT_wf_partial', 'Tbox.C17.setTimeout_wf',
+    'Tbox.C17.C17_result_matches_doc_seq_over_par_leaves', 'Tbox.C17.C17_result_matches_doc_wrapper_over_par_leaves',
+    'Tbox.C17.C17_result_matches_doc_composite_over_par_leaves', 'Tbox.C17.C17_par_leaves_batch_ok', 'Tbox.C17.C17_par_leaves_done_as',
+    'Tbox.C17.goodB_par_leaves', 'Tbox.C17.goodB_of_good', 'Tbox.C17.runU_embedB', 'Tbox.C17.genB', 'Tbox.C17.result_matches_doc_runB', 'Tbox.C17.exSeqPar_run',
     # the inductive steps themselves
     'Tbox.C17.bstep_inv', 'Tbox.C17.step_wf', 'Tbox.C17.reachable_wf', 'Tbox.C17.seq_drive_aux',
 ]
@@ -78,8 +86,9 @@ ASSUMPTIONS = [
     'RepeatAction counts are size_t (< 2^64): C17_repeat_count_width; larger numerals are rejected by both sides',
     'ActionExecutor: its actions are leaves (dummy / function / pre-stopped); callbacks do not call back into the executor; destruction is exercised only between cases',
     'run ids do not wrap (2^63 deferred tasks)',
+    'setTimeout / resetTimeout (ops settmo / clrtmo) are called from the loop thread between two callbacks (the fd callback of a pass), not from inside a callback of the tree',
 ]
-RULE = ('(round 10: re-entrant restart family - for every composite kind (Sequence Parallel IfElse IfThen Switch Loop LoopIf Repeat Wrapper Composite, as root, below a Sequence, below a Parallel) over composite children: the root is reset() and start()ed again from the final callback of every inner composite and from the body of every function leaf (first and second invocation), triggered by the natural end of the child, by a sibling ending its Parallel parent, by the timeout of the parent, by stop() from outside; op `mark` records the end state of the control-free run of the freshly built tree, op `cmpfresh` compares the end state of the restarted run with it: state and result of every node, number of calls of every function leaf, finish notifications of the root; plus 300 (thorough 3000) random trees x scripts x emits) (round 9: width families - sleeps / timeouts of B-1, B, B+1 ms for B = 2^15 2^16 2^31 2^32 2^42 and 0 driven to 1 ms before and across the deadline, with pause/resume on both sides; RepeatAction counts 0 1 2 3 2^16+1 2^31+1 2^32-1 2^32 2^32+1 2^63+1 2^64-1; 3*10^4 (thorough: 10^5) synchronous loop iterations with the exact call count; late passes `advdo` (clock moves between timer phase and control calls: negative remaining span); call-outs from function bodies on ancestors other than the root, free mode) (re-entrant control: one-shot scripts start/pause/resume/stop/reset attached to the final / finish / block callback of the root, exhaustively over small trees x scripts x one control call, and in random scripts) random action trees (depth <= 4, <= 40 nodes, all 10 composites and all their modes, leaves Function succ/fail(+case tag), Sleep, Dummy, '
+RULE = ('(round 11: timeout x block x reset x restart - 16 small trees with a timeout on the root / an inner composite / the blocking leaf itself, 4 scripts S; the leaf blocks after 0 / 100 ms, the block notification is queued / delivered / 100 ms old, the blocked tree gets nothing / pause() / resume() / pause resume pause, then reset()+start() in one call / across a pass / deferred / reset() twice / after stop() / in a late pass, then S again: op `cmpfresh` (now also outside free mode) compares the restarted run with the run of the freshly built tree under the same op script - end state of every node, calls of every function leaf, finish and block notifications of the root AND the instant of each finish notification relative to start(); lesson (g): ops settmo / clrtmo = Action::setTimeout / resetTimeout on any node at any pass - the SAME value while Running (the deadline must move), smaller / larger / raw values, while blocked / paused / Idle / ended, six times in a row, followed by reset()+start(); start() / reset() / reset() reset() / start() start() in the same fd callback as the end of a run (finish or block notification still queued), 1 and 2 passes later, deferred; op `share <kind>`: one leaf object offered to two parents of each of the 10 composite kinds) (round 10: re-entrant restart family - for every composite kind (Sequence Parallel IfElse IfThen Switch Loop LoopIf Repeat Wrapper Composite, as root, below a Sequence, below a Parallel) over composite children: the root is reset() and start()ed again from the final callback of every inner composite and from the body of every function leaf (first and second invocation), triggered by the natural end of the child, by a sibling ending its Parallel parent, by the timeout of the parent, by stop() from outside; op `mark` records the end state of the control-free run of the freshly built tree, op `cmpfresh` compares the end state of the restarted run with it: state and result of every node, number of calls of every function leaf, finish notifications of the root; plus 300 (thorough 3000) random trees x scripts x emits) (round 9: width families - sleeps / timeouts of B-1, B, B+1 ms for B = 2^15 2^16 2^31 2^32 2^42 and 0 driven to 1 ms before and across the deadline, with pause/resume on both sides; RepeatAction counts 0 1 2 3 2^16+1 2^31+1 2^32-1 2^32 2^32+1 2^63+1 2^64-1; 3*10^4 (thorough: 10^5) synchronous loop iterations with the exact call count; late passes `advdo` (clock moves between timer phase and control calls: negative remaining span); call-outs from function bodies on ancestors other than the root, free mode) (re-entrant control: one-shot scripts start/pause/resume/stop/reset attached to the final / finish / block callback of the root, exhaustively over small trees x scripts x one control call, and in random scripts) random action trees (depth <= 4, <= 40 nodes, all 10 composites and all their modes, leaves Function succ/fail(+case tag), Sleep, Dummy, '
         'timeouts on any node) driven by op scripts: start, then passes / clock steps / control calls (single, paired, deferred with runNext) and '
         'emits on dummy leaves; plus exhaustive placement of one (thorough: two) control calls over all passes of small trees; plus Parallel trees with pause at pass i and resume / resume+pause / stop / reset start at every pass j >= i (tags par+pause par+resume par+stop par+reset par-paused), timeouts expiring in the same pass as a child finishes next to the schedules where they do not (tag tmo-race), control-free Parallel-over-leaves runs of 0-8 children; non-trivial = the root '
         'delivered a finish or block notification on a tree of >= 3 nodes, or a result was held back / replayed, or a timeout fired; distinct = distinct op text')
@@ -572,8 +581,116 @@ def gen_restart_random(rng):
     return ops + SETTLE_OPS + ['passes 40', 'cmpfresh']       # a Repeat(5) over a few levels of synchronous children needs its passes
 
 
+# ---- round 11: timeout x block x reset x restart (missed seed C17-6: reset() of a BLOCKED action must disarm its timeout timer; a blocked
+# action is in kPause with the timer still armed, pause() alone disarms it), every product at every pass of small trees; each case first
+# records the run of the freshly built tree under the script S (`mark`), then blocks / resets / restarts and drives the restarted run
+# with the same S (`cmpfresh`, same-script rule: end state and the instant of the finish notification must be those of the fresh run)
+TBR_TREES = ['( ift@2 D Fs )', '( seq:all@2 D Fs )', '( par:all@2 D Z1 )', '( par:anys@2 D D )', '( cmp@2 ( seq:all D Fs ) )', '( wr:i@2 D )',
+             '( loop:us@2 D )', '( rep:2:nb@2 D )', '( lif:t@2 D Fs )', '( sw:d@2 D Fs Fs )', '( ife:tt@2 D Fs Ff )',
+             '( seq:all ( ift@2 D Fs ) Fs )', '( par:all ( seq:all@2 D Fs ) D )', '( seq:all D@2 Fs )', '( seq:all@3 ( cmp@2 D ) Fs )', 'D@2']
+
+
+def tbr_scripts(d):
+    """scripts S for the run under comparison (d = id of the blocking dummy); timeouts @2 are 202..210 ms, `adv 1` is 100 ms"""
+    return [
+        ['adv 1', 'pass', 'adv 1', 'do emit:%d:s' % d, 'pass', 'pass', 'pass'],                      # ends at 200 ms, before its own deadline
+        ['adv 1', 'adv 1', 'pass', 'adv 1', 'pass', 'pass'],                                           # times out at its own deadline
+        ['do emit:%d:b' % d, 'pass', 'adv 1', 'do resume', 'adv 1', 'do emit:%d:s' % d, 'pass', 'pass', 'pass'],   # blocks again, resumed, ends in time
+        ['adv 1', 'do pause', 'adv 3', 'do resume', 'adv 1', 'pass', 'do emit:%d:s' % d, 'pass', 'pass', 'pass'],  # pause: full interval again
+    ]
+
+
+TBR_WAITS = [[], ['pass'], ['pass', 'adv 1'], ['pass', 'pass', 'adv 1'], ['adv 1']]
+TBR_EXTRA = [[], ['do pause'], ['do resume'], ['do pause resume pause']]
+TBR_RESETS = [['do reset start'], ['do reset', 'pass', 'do start'], ['defer reset start'], ['do reset reset start'], ['do stop reset start'],
+              ['advdo 100 reset start']]
+
+
+def gen_tmo_block_restart(quick):
+    for ti, tree in enumerate(TBR_TREES):
+        fn, asm, dum = tree_ids(tree)
+        d = dum[0]
+        k = 0
+        for si, S in enumerate(tbr_scripts(d)):
+            for pre in ([], ['adv 1']):
+                for wi, wait in enumerate(TBR_WAITS):
+                    for ei, extra in enumerate(TBR_EXTRA):
+                        for ri, rst in enumerate(TBR_RESETS):
+                            k += 1
+                            if quick and (k + ti) % 7 and not (si == 0 and ei == 0 and ri == 0):
+                                continue
+                            yield (['tree ' + tree, 'do start'] + S + ['mark', 'do reset start'] + pre + ['do emit:%d:b' % d] + wait + extra
+                                   + rst + S + ['cmpfresh'])
+
+
+# ---- round 11, lesson (g): inputs equal to / derived from cached state: setTimeout with the SAME value while running (the deadline must
+# move), in every lifecycle state, on every node; start() while the previous run's finish notification is still queued; reset() twice;
+# one leaf object offered to two parents
+SETTMO_TREES = ['( seq:all@2 D Fs )', '( par:all@2 D Z1 )', '( cmp@2 ( seq:all@2 D Fs ) )', '( seq:all D@2 Fs )', '( wr:i@2 Z3 )', 'D@2', '( ift D Fs )']
+
+
+def gen_settmo(quick):
+    for tree in SETTMO_TREES:
+        fn, asm, dum = tree_ids(tree)
+        toks = [t for t in tree.split() if t not in '()']
+        tmo_nodes = [i for i, t in enumerate(toks) if '@' in t] or [0]
+        d = dum[0] if dum else None
+        S = ['adv 1', 'pass', 'adv 1'] + (['do emit:%d:s' % d] if d is not None else []) + ['pass', 'pass', 'pass']
+        for n in tmo_nodes:
+            for spec in ('2', '1', '3', 'r250'):
+                for state in ('run', 'blocked', 'paused', 'idle', 'ended'):
+                    if state == 'blocked' and d is None: continue
+                    if quick and spec in ('3', 'r250') and state in ('idle', 'ended'): continue
+                    ops = ['tree ' + tree]
+                    if state == 'idle': ops += ['settmo %d %s' % (n, spec)]
+                    ops += ['do start', 'adv 1']
+                    if state == 'run': ops += ['settmo %d %s' % (n, spec)]
+                    if state == 'blocked': ops += ['do emit:%d:b' % d, 'pass', 'settmo %d %s' % (n, spec), 'adv 1', 'pass', 'adv 1', 'do resume']
+                    if state == 'paused': ops += ['do pause', 'settmo %d %s' % (n, spec), 'adv 1', 'pass', 'adv 1', 'do resume']
+                    if state == 'ended': ops += ['do stop', 'settmo %d %s' % (n, spec), 'pass', 'do reset start']
+                    # past the OLD deadline, short of the new one; then past the new one
+                    ops += ['adv 1', 'pass', 'adv 1', 'pass', 'pass', 'adv 1', 'pass', 'adv 1', 'pass', 'pass']
+                    yield ops
+            # the same value again and again: every call moves the deadline, the action never times out while it is being re-armed
+            yield ['tree ' + tree, 'do start'] + ['adv 1', 'settmo %d 2' % n] * 6 + ['adv 1', 'pass', 'adv 1', 'pass', 'adv 1', 'pass', 'pass']
+            # resetTimeout() mid-run: no timeout any more; setTimeout() again later
+            yield ['tree ' + tree, 'do start', 'adv 1', 'clrtmo %d' % n, 'adv 3', 'pass', 'pass', 'settmo %d 1' % n, 'pass', 'adv 1', 'pass', 'adv 1', 'pass', 'pass']
+            yield ['tree ' + tree, 'do start', 'adv 1', 'clrtmo %d' % n, 'clrtmo %d' % n, 'settmo %d 2' % n, 'settmo %d 2' % n, 'adv 2', 'pass', 'adv 1', 'pass', 'pass']
+            # the same value, then reset + start: the restarted run is the fresh run (same-script comparison)
+            yield (['tree ' + tree, 'do start'] + S + ['mark', 'do reset start', 'adv 1', 'settmo %d 2' % n, 'adv 1', 'pass']
+                   + (['do emit:%d:b' % d, 'pass', 'settmo %d 2' % n] if d is not None else []) + ['do reset start'] + S + ['cmpfresh'])
+    yield ['tree ( seq:all Fs )', 'settmo', 'settmo 0', 'settmo 1 2', 'settmo 0 x', 'settmo 0 51', 'settmo 0 r8796093022209', 'settmo 0 2@1', 'clrtmo', 'clrtmo 1',
+           'clrtmo x', 'settmo 0 r8796093022208', 'do start', 'pass', 'cmpfresh x', 'cmpfresh', 'share seq']
+    yield ['settmo 0 2', 'clrtmo 0', 'cmpfresh', 'share', 'share nope', 'share seq x']
+    for kd in ('seq', 'par', 'ift', 'ife', 'sw', 'loop', 'lif', 'rep', 'wr', 'cmp'):
+        yield ['share ' + kd, 'share ' + kd, 'tree ( seq:all Fs )', 'do start', 'pass', 'pass']
+
+
+def gen_queued_fin_and_double_reset(quick):
+    """start() / reset() / reset() reset() while the finish (or block) notification of the previous run is still queued, at every pass"""
+    trees = ['( seq:all Fs )', '( seq:all D Fs )', 'D', 'D@1', '( par:all D Fs )', '( cmp ( seq:all D ) )', '( seq:all )', '( wr:i@1 D )', '( ift@1 D Fs )']
+    calls = ['start', 'reset start', 'reset reset', 'reset reset start', 'reset start reset start', 'start start', 'stop start', 'stop reset reset start',
+             'pause start', 'reset start start']
+    for tree in trees:
+        fn, asm, dum = tree_ids(tree)
+        d = dum[0] if dum else None
+        for c in calls:
+            for x in 'sfb':
+                if d is None and x != 's': continue
+                em = 'emit:%d:%s ' % (d, x) if d is not None else ''
+                for gap in ([], ['pass'], ['pass', 'pass']):
+                    # the call lands in the SAME fd callback as the end of the run (notification queued, not delivered), or 1 / 2 passes later
+                    yield ['tree ' + tree, 'do start'] + (['do ' + em + c] if not gap else ['do ' + em.strip()] * (1 if em else 0) + gap + ['do ' + c]) + \
+                          ['pass', 'pass'] + (['do emit:%d:s' % d] if d is not None else []) + ['pass', 'adv 2', 'pass', 'pass']
+                    if d is not None:
+                        yield ['tree ' + tree, 'do start', 'defer ' + em + c, 'pass', 'do emit:%d:s' % d, 'pass', 'adv 2', 'pass', 'pass']
+
+
 def gen(rng, tier):
     quick = tier == 'quick'
+    yield from gen_tmo_block_restart(quick)
+    yield from gen_settmo(quick)
+    yield from gen_queued_fin_and_double_reset(quick)
     yield from gen_restart(quick)
     for _ in range(300 if quick else 3000):
         c = gen_restart_random(rng)
@@ -692,7 +809,7 @@ def nontrivial(ops, model_lines):
     for l in model_lines:
         if l.startswith('B '):
             tags.update(l[2:].split())
-    if tags & {'held-back', 'held-back-par', 'replay-queued', 'tmo-node-failed', 'root-blk', 'tmo-race', 'par-paused'}:
+    if tags & {'held-back', 'held-back-par', 'replay-queued', 'tmo-node-failed', 'root-blk', 'tmo-race', 'par-paused', 'tmo-blocked', 'tmo-blocked-reset', 'settmo'}:
         return 1
     if 'x-xapp' in tags and sum(1 for l in model_lines if l.startswith('P e xfinished')) >= 2:
         return 1
@@ -734,7 +851,7 @@ LEVEL_TEXT = ('Lean 4 theorems over an executable model of the action framework.
               'evaluates WF and the documented result (reference evaluator, all composites) on every visited state')
 LEVEL_NOTE = ('whole-tree "root result = documented meaning, exactly one finish notification, leaves called in the documented order" is PROVED through '
               'the deferred queue for trees of Sequence/IfElse/IfThen/Switch/Wrapper/Composite/Loop/LoopIf/Repeat(n>=1) over Function and Sleep leaves (C17_result_matches_doc_serial, '
-              'safety for every pass/clock sequence; C17_finishes_exactly_once, liveness: after cost(t)+1 big clock steps / passes in any fair schedule the trace IS the complete visit order + one finish, when the evaluator terminates; C17_loop_never_finishes: otherwise no finish notification ever; C17_skeleton_preserved for every op sequence), and for ParallelAction (all three modes, any number of children) over Function and Sleep leaves as the root (C17_result_matches_doc_par_leaves: all children called in child order inside start(), then none or exactly one finish (true,0) for every pass/clock sequence; C17_par_leaves_finishes_exactly_once: three big ops suffice, root Finished, nothing left Running/Pause; batch invariant PI kept by every runTask/fireOne in any order); round 9: C17_never_stuck_partial / C17_never_stuck_par_leaves (a Running root of the covered classes always waits for a queued task, an armed timer or a child under way, in every control-free run), C17_tree_inv_late (WF and its corollaries with late passes), C17_timeout_fires (any tree, any state: a firing timeout leaves the action Finished/fail with reason 1 queued and no descendant under way), C17_repeat_count_width / C17_sleep_deadline_width / C17_finish_time_fits (the ranges in which the Nat/Int values of the model are the C++ size_t / uint64 / int64-ns values, with counterexamples outside); round 10: visit(Parallel) = the children in child order (C17_result_matches_doc_par_leaves_visit), C17_batch_embed (one op of a parent is the op of its active child embedded, for ANY number of notifications in the batch, under BatchOk; AP is an instance); OPEN: order of the calls of a non-terminating loop, Parallel nested below serial composites or over composite children (remaining steps listed in Props.lean), timeouts (C17_timeout_result_depends_on_pass_granularity: the result of a tree with a timeout depends on whether a loop pass runs between two deadlines, so the statement needs a schedule hypothesis) (all compared with the evaluator on '
+              'safety for every pass/clock sequence; C17_finishes_exactly_once, liveness: after cost(t)+1 big clock steps / passes in any fair schedule the trace IS the complete visit order + one finish, when the evaluator terminates; C17_loop_never_finishes: otherwise no finish notification ever; C17_skeleton_preserved for every op sequence), and for ParallelAction (all three modes, any number of children) over Function and Sleep leaves as the root (C17_result_matches_doc_par_leaves: all children called in child order inside start(), then none or exactly one finish (true,0) for every pass/clock sequence; C17_par_leaves_finishes_exactly_once: three big ops suffice, root Finished, nothing left Running/Pause; batch invariant PI kept by every runTask/fireOne in any order); round 9: C17_never_stuck_partial / C17_never_stuck_par_leaves (a Running root of the covered classes always waits for a queued task, an armed timer or a child under way, in every control-free run), C17_tree_inv_late (WF and its corollaries with late passes), C17_timeout_fires (any tree, any state: a firing timeout leaves the action Finished/fail with reason 1 queued and no descendant under way), C17_repeat_count_width / C17_sleep_deadline_width / C17_finish_time_fits (the ranges in which the Nat/Int values of the model are the C++ size_t / uint64 / int64-ns values, with counterexamples outside); round 10: visit(Parallel) = the children in child order (C17_result_matches_doc_par_leaves_visit), C17_batch_embed (one op of a parent is the op of its active child embedded, for ANY number of notifications in the batch, under BatchOk; AP is an instance); round 11: the timeout timer in every lifecycle state - C17_block_keeps_timeout (a blocked action is Pause with its timer still armed), C17_pause_stop_reset_disarm, C17_reset_disarms_every_timer (every reachable state of every tree: after reset() no timer of the tree is armed), C17_restart_deadline (a reset action started at `now` has the deadline now + timeout) with C17_stale_timer_survives_start_counterexample (enable() is a no-op on an armed timer) and the kernel-evaluated history C17_reset_of_blocked_action_restart; setTimeout / resetTimeout at any pass (TmoCtl.lean): C17_set_timeout_same_value_moves_deadline, C17_set_timeout_not_running, C17_set_timeout_keeps_inv_partial (guard: the target is the root or not Idle); ParallelAction over Function / Sleep leaves as a CHILD of Sequence / Wrapper / Composite at any positions, nestable (C17_result_matches_doc_seq_over_par_leaves, ..._wrapper_..., ..._composite_...; C17_par_leaves_batch_ok, C17_par_leaves_done_as); OPEN: order of the calls of a non-terminating loop, Parallel below IfElse / IfThen / Switch / Loop / LoopIf / Repeat (same substitution, not copied) or over composite children, liveness of parents over a Parallel child, TimersFrom (every armed deadline of a restarted tree = start + interval) at tree level, timeouts (C17_timeout_result_depends_on_pass_granularity: the result of a tree with a timeout depends on whether a loop pass runs between two deadlines, so the statement needs a schedule hypothesis) (all compared with the evaluator on '
               'every control-free generated run for all composites); trace equivalence '
               'of a reset tree with a fresh one in general (proved: Clean + WF after reset, and C17_rerun_after_reset: covered class, second run without control calls, after any history); ActionExecutor: one-at-a-time, heads-only, highest-priority-first and callbacks-once proved; trusted: Lean kernel, '
               'hand-written model, harness, generator coverage (measured)')
